@@ -17,6 +17,12 @@ def run(chk):
         for k in cert:
             jobs.append((k, 1, 'new', 'cert'))
         jobs += [(19, 4, 'new', 'cert'), (300, 3, 'plan', 'cert')]
+        # every Table-2 row up to 6000 and a spread above, light certificate (LT relations on ~60 ISIs): a change to one
+        # row (J, S, H, W) or to one table entry that only some K' reach is seen on every change
+        certk = set(cert)
+        for i, kp in enumerate(kps):
+            if kp not in certk and (kp <= 6000 or i % 12 == 5):
+                jobs.append((kp, 1, 'new', 'light'))
     else:
         for k in range(1, 102):
             jobs.append((k, 1, 'new', 'full'))
